@@ -163,6 +163,9 @@ pub fn wdec(ctx: &mut Ctx, plan: DecPlan) {
         let bytes = rec.bytes();
         ctx.count("bases");
         ctx.sample(|| json!({"class": "valid", "scheme": scheme.name(), "hex": crate::util::hex(&bytes)}));
+        // the canary is the SMALLEST valid record of the same key (a record with fewer pairs than the inputs judged
+        // in between shows pairs that leaked from them)
+        ctx.canary = Some(Rec::minimal(rec.key, 3).bytes());
         judge_input(ctx, "valid", &bytes, t);
         if cfg!(miri) && ctx.expired() {
             break;
